@@ -114,10 +114,17 @@ func c04Methods(tier string) []string {
 	rec(nil)
 	// near misses of every registrable name and of the built-in interface
 	for _, n := range append(append([]string(nil), c04Names...), "org.varlink.service") {
+		if n == "" {
+			continue
+		}
 		for _, m := range []string{"M", "GetInfo", ""} {
 			full := n + "." + m
 			out = append(out, full, n+m, n+"x."+m, strings.ToUpper(n)+"."+m, n[:len(n)-1]+"."+m, n+"..", "."+full, full+".", " "+full, n+" ."+m)
 		}
+	}
+	// characters whose lower- or upper-case form has another byte length (U+023A, U+0130, U+1E9E, U+212A), written raw
+	for _, n := range []string{"ȺȺȺȺ", "a.Ⱥ", "İ", "a.b.İİ", "ẞ.x", "KK.a"} {
+		out = append(out, n+".M", n+".Ⱥ", n, "a."+n, n+".a.b.c.d")
 	}
 	// characters that mean something to path/URL/printf helpers a router might be rewritten with
 	for _, n := range append(append([]string(nil), c04Names...), "org.varlink.service", "zz") {
@@ -132,7 +139,9 @@ func c04Methods(tier string) []string {
 	return out
 }
 
-var c04Names = []string{"a", "a.b", "a.b.c", "b", "org.varlink", "é.x", "org.varlink.servicex"}
+// registrable names; the library does not validate them, so the empty name can be registered too - a method string
+// without an interface part is still answered InvalidParameter("method") whatever the table holds
+var c04Names = []string{"a", "a.b", "a.b.c", "b", "org.varlink", "é.x", "org.varlink.servicex", ""}
 
 var c04NonCalls = []string{`[]`, `5`, `"s"`, `{"method":5}`, `{"method":["a.b"]}`, `{"method":{"a":"b"}}`, `{"method":true}`, `true`, ``, `{`, `{"method":"a.M"`, `{"method":"a.M"}}`, "\xff", `{"method":"a.M","oneway":"yes"}`, `[{"method":"a.M"}]`,
 	`null`, `{}`, `{"method":null}`, `{"Method":"a.M"}`, `{"method":"a.M","method":"b.M"}`, `{"method":"a.M","extra":[1,2]}`}
